@@ -327,6 +327,19 @@ fn evaluate_class(rep: &mut Report, rng: &mut Rng, s: &Subject, case: u64, sizes
         if p.is_empty() { rep.count("reads.simple.ok"); }
         report(rep, "read", &v, s, p, &|t: &K| problems_of_read(&s.bytes, 0, end, &Visitor::Simple(t.clone()), s), json!({"workload": workload}));
         account(&mut Cov { on: [0; NBITS], off: [0; NBITS] }, rep, s, &simple_k(&k), "simple");
+        // the same probe fed by replay of the full tree
+        rep.eval(); rep.count("replays.simple");
+        let replay_simple = |t: &K| -> Vec<Problem> {
+            match guard(|| s.tree.clone().accept(simple::SimpleMulti::new(simple_cfg(t, s))).map(|m| simple::observations(m).into_iter().next()).map_err(|e| format!("{e:#}"))) {
+                Err(p) => vec![Problem { key: format!("panic {}", p.site()), detail: json!({"panic": p.message}) }],
+                Ok(Err(e)) => vec![Problem { key: "replay into the visitor fails".into(), detail: json!({"error": e}) }],
+                Ok(Ok(None)) => vec![Problem { key: "visit_class called 0 times for one class".into(), detail: json!({}) }],
+                Ok(Ok(Some(mut o))) => { for b in o.built.iter_mut() { b.deprecated = s.full.deprecated; b.synthetic = s.full.synthetic; } judge(&s.full, &simple_k(t), &o) }
+            }
+        };
+        let p = replay_simple(&k);
+        if p.is_empty() { rep.count("replays.simple.ok"); }
+        report(rep, "replay", &v, s, p, &replay_simple, json!({"workload": workload}));
     }
     // ---- replay into the tree builder reproduces the class
     {
